@@ -126,20 +126,11 @@ CLAIMS["C09"] = {
     "note": BASE_NOTE,
 }
 CLAIMS["C06"] = {
-    "text": "Proved in Lean so far: the two leaf-level soundness theorems every step of lookup verification rests on "
-            "(membership_sound_leaf, nonmembership_sound, for every proof value). The composition lookup_sound (Thm/C06.lean: against "
-            "the root of a tree that is honest for the label, ANY accepted lookup proof reports the latest version, its value and "
-            "epoch; nothing is accepted for an unpublished label) is stated and being proved; until it is an obligation that step rests "
-            "on the correspondence run with the symbolic server adversary on the real lookup_verify and an independent oracle.",
-    "note": BASE_NOTE + "VRF modelled by its contract (complete, unique output) over an oracle table from the real HardCodedAkdVRF.",
+    "text": "Proved in Lean, full strength, for EVERY proof value: against the root of a tree that is honest for the label (HonestFor: exactly the fresh leaves of its versions 1..n with commitment and epoch, exactly the stale leaves of the superseded versions stamped with the successor's epoch), any accepted lookup proof reports the latest version, its value and the epoch of that update (lookup_sound); nothing is accepted for an unpublished label; a version above the current epoch is rejected. That the directory's publish produces such a tree for every label after every history is proved too (history_refines + refines_honest, C01c), so the theorem applies to the model of the real directory. The verifier and directory models are tied to the Rust by the adversarial correspondence run (a symbolic server adversary on the real lookup_verify, with an independent oracle).",
+    "note": BASE_NOTE + "VRF modelled by its contract (a proof identifies the input it was generated for; distinct inputs give distinct 256-bit labels on the inputs in play) over an oracle table from the real HardCodedAkdVRF.",
 }
 CLAIMS["C07"] = {
-    "text": "Proved in Lean so far: leaf-level soundness (C05) and the marker facts that exclude dropping the newest entries "
-            "(succ_mem_future: version end+1 is always among the versions a proof must show absent). The composition history_sound / "
-            "history_sound_tombstone / late_stale_rejected (Thm/C07.lean) is stated and being proved; until it is an obligation that "
-            "step rests on the correspondence run with the symbolic server adversary on the real key_history_verify in both modes "
-            "and an independent oracle. Known finding C07-F1 (tombstoned version-1 entry can be misdated) is confirmed on the real "
-            "verifier and is the exception clause of the stated theorem.",
+    "text": "Proved in Lean, full strength, for EVERY proof value and both parameters (Complete, MostRecent n): against an honest root the strict verifier accepts only proofs whose result IS the true version list (history_sound); with missing values allowed the versions are the true ones, values are the true ones or empty, and epochs are true except possibly for a version-1 entry carried with the empty value (history_sound_tombstone — known finding C07-F1, confirmed on the real verifier and kernel-checked as a witness); nothing is accepted for an unpublished label; if the tree does not retire version v-1 in the very epoch of v, no proof covering v verifies (late_stale_rejected). Honesty of the directory's tree is proved (C01c). Tied to the Rust by the adversarial correspondence run on the real key_history_verify in both modes with an independent oracle.",
     "note": BASE_NOTE + "VRF modelled by its contract over an oracle table.",
 }
 CLAIMS["C14"] = {
